@@ -18,9 +18,20 @@ def run(F, rep):
     rep.run(lemmas.dnastring_lemmas, F, rep, which={"new", "get", "push", "extend", "rc", "render", "ndiffs"})
     rep.run(lemmas.dnastring_render_lemmas, F, rep, "C14.3")
     rep.run(lemmas.dnastring_order_lemmas, F, rep, "C14.4")
-    rep.run(structural.check_derives, F, rep, "C14.4", DS, ["std::cmp::PartialEq", "std::cmp::Eq", "std::hash::Hash", "std::cmp::PartialOrd", "std::cmp::Ord"])
+    # comparison traits: derived over (storage, len) — or written by hand, in which case the order table above (which interprets ==, cmp and
+    # partial_cmp whatever their origin) is what decides them
+    order_ok = not [o for o in rep.obls if o.get("rule") == "C14.4" and o.get("status") != "HOLDS"]
+    d = structural.derives(F, DS)
+    cmp_traits = ["std::cmp::PartialEq", "std::cmp::Eq", "std::hash::Hash", "std::cmp::PartialOrd", "std::cmp::Ord"]
+    by_hand = [tr for tr in cmp_traits if tr in d and not d[tr]]
+    rep.run(structural.check_derives, F, rep, "C14.4", DS, [tr for tr in cmp_traits if tr not in by_hand or tr.endswith("Hash") or not order_ok])
+    for tr in by_hand:
+        if not tr.endswith("Hash") and order_ok:
+            rep.holds("C14.4", "%s/%s" % (DS, tr.split("::")[-1]), "%s is written by hand; the interpreted order / equality table decides it" % tr.split("::")[-1])
     fns = structural.field_names(F, DS)
-    if fns == ["storage", "len"]:
+    if "std::cmp::Ord" in by_hand or "std::cmp::PartialOrd" in by_hand:
+        pass        # the declaration order of the fields only matters to a derived comparison
+    elif fns == ["storage", "len"]:
         rep.holds("C14.4", "field-order", "derived comparison sees (storage, len): lexicographic order of the bases with a proper prefix first")
     else:
         rep.violated("C14.4", "field-order", "DnaString fields are declared as %s; with `len` first the derived order is short-lex, not lexicographic" % fns,
